@@ -2,7 +2,7 @@
 and its hand-written inverse undo each other on strictly monotone maps, inside and outside
 the mapped range."""
 from pyvc.core import Contract, contract, prop, internal
-from pyvc.spec import And, Or, Not, Implies, Ite, eq
+from pyvc.spec import And, Or, Not, Implies, Ite, eq, div
 
 
 def _axis(S, n):
@@ -80,6 +80,9 @@ class _StubAxis:
         self.name = "axis%d" % i
         self.default = S.real("default%d" % i)
         self._S, self._i = S, i
+
+    def __deepcopy__(self, memo):
+        return self          # immutable; and it holds the symbol factory, which must not be copied
 
     def map_forward(self, v):
         if self._S.concrete:
@@ -173,3 +176,50 @@ class DocMapForward(Contract):
         return f(a.self, a.userLocation)
 
     ensures = [prop("user-location-mapped-per-axis", lambda a, old, r: _loc_expect(a, r, {}, a.userLocation))]
+
+
+@contract
+class DocNormalizeLocation(Contract):
+    """DesignSpaceDocument.normalizeLocation: a design location is normalised axis by axis
+    against the DESIGN-space triple (map_forward of minimum, default, maximum): 0 at the mapped
+    default, -1 / +1 at the mapped extremes, linear in between and clamped outside; an anisotropic
+    pair contributes its first value; axes the location does not mention are left out."""
+    module = "fontTools.designspaceLib"
+    qualname = "DesignSpaceDocument.normalizeLocation"
+    props = ("C10", "C19")
+    variants = _PRESENT
+    level = "PF"
+    assumptions = ("A-REAL", "the axis maps are monotone (validated elsewhere): MF(minimum) <= MF(default) <= MF(maximum)")
+
+    def args(self, S, variant):
+        axes = [_StubAxis(S, 0), _StubAxis(S, 1)]
+        for i, ax in enumerate(axes):
+            ax.minimum, ax.maximum = S.real("minimum%d" % i), S.real("maximum%d" % i)
+        loc = {}
+        for i in variant:
+            v = S.real("value%d" % i)
+            loc["axis%d" % i] = (v, S.real("other%d" % i)) if i == 1 else v
+        return dict(self=_Doc(axes), location=loc, _present=variant)
+
+    def requires(self, a):
+        return And(*[And(ax.map_forward(ax.minimum) <= ax.map_forward(ax.default), ax.map_forward(ax.default) <= ax.map_forward(ax.maximum))
+                     for ax in a.self.axes])
+
+    @staticmethod
+    def _post(a, r):
+        if sorted(r) != sorted("axis%d" % i for i in a._present):
+            return False
+        cs = []
+        for i in a._present:
+            ax = a.self.axes[i]
+            v = a.location[ax.name]
+            v = v[0] if isinstance(v, tuple) else v
+            lo, de, hi = ax.map_forward(ax.minimum), ax.map_forward(ax.default), ax.map_forward(ax.maximum)
+            c = Ite(v < lo, lo, Ite(v > hi, hi, v))
+            # div() is the total, non-forking division of the spec language (the guards make the divisor non-zero)
+            want = Ite(Or(eq(c, de), eq(lo, hi)), 0,
+                       Ite(c < de, Ite(eq(lo, de), 0, div(c - de, de - lo)), Ite(eq(hi, de), 0, div(c - de, hi - de))))
+            cs.append(eq(r[ax.name], want))
+        return And(*cs)
+
+    ensures = [prop("default-normalisation-in-design-space", lambda a, old, r: DocNormalizeLocation._post(a, r))]
